@@ -68,6 +68,8 @@ func (c *Connections) Close() {
 	}
 }
 
+// Delete removes conn. The entry of its remote address is only removed when it still is conn: a peer that has
+// connected again from the same address and port owns the entry by then.
 func (c *Connections) Delete(conn Connection) {
-	c.data.Delete(conn.RemoteAddr().String())
+	c.data.CompareAndDelete(conn.RemoteAddr().String(), conn)
 }
